@@ -70,6 +70,24 @@ func (p pfx) String() string {
 	return fmt.Sprintf("%d.%d.%d.%d/%d", p.addr>>24, (p.addr>>16)&255, (p.addr>>8)&255, p.addr&255, p.len)
 }
 func (p pfx) coq() string { return fmt.Sprintf("(mkP %d %d%%nat)", p.addr, p.len) }
+// IPv6 entities live in fd00:c43::/96; a 32-bit prefix (a, l) stands for fd00:c43::a/(96+l).
+func (p pfx) ipnet6() cnet.IPNet {
+	ipb := gonet.IP{0xfd, 0, 0x0c, 0x43, 0, 0, 0, 0, 0, 0, 0, 0, byte(p.addr >> 24), byte(p.addr >> 16), byte(p.addr >> 8), byte(p.addr)}
+	return cnet.IPNet{IPNet: gonet.IPNet{IP: ipb, Mask: gonet.CIDRMask(96+p.len, 128)}}
+}
+func ip6Str(a uint32) string { return fmt.Sprintf("fd00:c43::%x:%x", a>>16, a&0xffff) }
+func (p pfx) net(v6 bool) cnet.IPNet {
+	if v6 {
+		return p.ipnet6()
+	}
+	return p.ipnet()
+}
+func (p pfx) str(v6 bool) string {
+	if v6 {
+		return fmt.Sprintf("%s/%d", ip6Str(p.addr), 96+p.len)
+	}
+	return p.String()
+}
 func (p pfx) ipnet() cnet.IPNet {
 	return cnet.IPNet{IPNet: gonet.IPNet{IP: gonet.IPv4(byte(p.addr>>24), byte(p.addr>>16), byte(p.addr>>8), byte(p.addr)).To4(),
 		Mask: gonet.CIDRMask(p.len, 32)}}
@@ -91,6 +109,9 @@ type nodeV struct {
 	hasV4  bool
 	addr   uint32
 	subnet pfx
+	hasV6  bool
+	addr6  uint32 // last 32 bits under fd00:c43::/96
+	sub6   pfx
 }
 type allocV struct {
 	ord  int
@@ -116,6 +137,8 @@ type op struct {
 	block *blockV
 	node  *nodeV
 	cidrs []pfx
+	v6     bool  // pool / block of the IPv6 family
+	cidrs6 []pfx // IPv6 addresses of the workload
 }
 
 func modeCoq(m int) string { return []string{"Never", "Always", "Cross"}[m] }
@@ -129,36 +152,43 @@ func optN(i int) string {
 	return fmt.Sprintf("(Some %d)", i)
 }
 
+func nodevCoq(has bool, a uint32, sub pfx) string {
+	if !has {
+		return "None"
+	}
+	return fmt.Sprintf("(Some (%d, %s))", a, sub.coq())
+}
+func pfxList(cs []pfx) string {
+	var xs []string
+	for _, c := range cs {
+		xs = append(xs, c.coq())
+	}
+	return "[" + strings.Join(xs, "; ") + "]"
+}
+
 func (o op) coq() string {
 	switch o.kind {
 	case kPool:
 		if o.pool == nil {
-			return fmt.Sprintf("OpPool %s None", o.c.coq())
+			return fmt.Sprintf("P2 %v %s None", o.v6, o.c.coq())
 		}
-		return fmt.Sprintf("OpPool %s (Some (mkPool %s %s %v))", o.c.coq(), modeCoq(o.pool.ipip), modeCoq(o.pool.vxlan), o.pool.lb)
+		return fmt.Sprintf("P2 %v %s (Some (mkPool %s %s %v))", o.v6, o.c.coq(), modeCoq(o.pool.ipip), modeCoq(o.pool.vxlan), o.pool.lb)
 	case kBlock:
 		if o.block == nil {
-			return fmt.Sprintf("OpBlock %s None", o.c.coq())
+			return fmt.Sprintf("B2 %v %s None", o.v6, o.c.coq())
 		}
 		var as []string
 		for _, a := range o.block.allocs {
 			as = append(as, fmt.Sprintf("(%d, %s)", o.c.addr+uint32(a.ord), optN(a.host)))
 		}
-		return fmt.Sprintf("OpBlock %s (Some (mkBlock %s [%s]))", o.c.coq(), optN(o.block.aff), strings.Join(as, "; "))
+		return fmt.Sprintf("B2 %v %s (Some (mkBlock %s [%s]))", o.v6, o.c.coq(), optN(o.block.aff), strings.Join(as, "; "))
 	case kNode:
 		if o.node == nil {
-			return fmt.Sprintf("OpNode %d None", o.n)
+			return fmt.Sprintf("N2 %d None", o.n)
 		}
-		if !o.node.hasV4 {
-			return fmt.Sprintf("OpNode %d (Some None)", o.n)
-		}
-		return fmt.Sprintf("OpNode %d (Some (Some (%d, %s)))", o.n, o.node.addr, o.node.subnet.coq())
+		return fmt.Sprintf("N2 %d (Some (%s, %s))", o.n, nodevCoq(o.node.hasV4, o.node.addr, o.node.subnet), nodevCoq(o.node.hasV6, o.node.addr6, o.node.sub6))
 	default:
-		var cs []string
-		for _, c := range o.cidrs {
-			cs = append(cs, c.coq())
-		}
-		return fmt.Sprintf("OpWep %d [%s]", o.n, strings.Join(cs, "; "))
+		return fmt.Sprintf("W2 %d %s %s", o.n, pfxList(o.cidrs), pfxList(o.cidrs6))
 	}
 }
 
@@ -166,30 +196,37 @@ func (o op) human() string {
 	switch o.kind {
 	case kPool:
 		if o.pool == nil {
-			return "pool " + o.c.String() + " deleted"
+			return "pool " + o.c.str(o.v6) + " deleted"
 		}
-		return fmt.Sprintf("pool %s ipip=%s vxlan=%s lbOnly=%v", o.c, modeCoq(o.pool.ipip), modeCoq(o.pool.vxlan), o.pool.lb)
+		return fmt.Sprintf("pool %s ipip=%s vxlan=%s lbOnly=%v", o.c.str(o.v6), modeCoq(o.pool.ipip), modeCoq(o.pool.vxlan), o.pool.lb)
 	case kBlock:
 		if o.block == nil {
-			return "block " + o.c.String() + " deleted"
+			return "block " + o.c.str(o.v6) + " deleted"
 		}
-		s := fmt.Sprintf("block %s affinity=%d", o.c, o.block.aff)
+		s := fmt.Sprintf("block %s affinity=%d", o.c.str(o.v6), o.block.aff)
 		for _, a := range o.block.allocs {
-			s += fmt.Sprintf(" %s->n%d", ipStr(o.c.addr+uint32(a.ord)), a.host)
+			s += fmt.Sprintf(" +%d->n%d", a.ord, a.host)
 		}
 		return s
 	case kNode:
 		if o.node == nil {
 			return fmt.Sprintf("node n%d deleted", o.n)
 		}
-		if !o.node.hasV4 {
-			return fmt.Sprintf("node n%d v6-only", o.n)
+		t := fmt.Sprintf("node n%d", o.n)
+		if o.node.hasV4 {
+			t += fmt.Sprintf(" %s in %s", ipStr(o.node.addr), o.node.subnet)
 		}
-		return fmt.Sprintf("node n%d %s in %s", o.n, ipStr(o.node.addr), o.node.subnet)
+		if o.node.hasV6 {
+			t += fmt.Sprintf(" %s in %s", ip6Str(o.node.addr6), o.node.sub6.str(true))
+		}
+		return t
 	default:
 		s := fmt.Sprintf("wep w%d", o.n)
 		for _, c := range o.cidrs {
 			s += " " + c.String()
+		}
+		for _, c := range o.cidrs6 {
+			s += " " + c.str(true)
 		}
 		return s
 	}
@@ -227,24 +264,24 @@ func (r *recorder) OnRouteRemove(dst string) {
 func apply(res *calc.L3RouteResolver, o op) {
 	switch o.kind {
 	case kPool:
-		key := model.IPPoolKey{CIDR: model.PrefixFromIPNet(o.c.ipnet())}
+		key := model.IPPoolKey{CIDR: model.PrefixFromIPNet(o.c.net(o.v6))}
 		if o.pool == nil {
 			res.OnPoolUpdate(api.Update{KVPair: model.KVPair{Key: key}, UpdateType: api.UpdateTypeKVDeleted})
 			return
 		}
-		p := &model.IPPool{CIDR: o.c.ipnet(), IPIPMode: modeGo(o.pool.ipip), VXLANMode: modeGo(o.pool.vxlan)}
+		p := &model.IPPool{CIDR: o.c.net(o.v6), IPIPMode: modeGo(o.pool.ipip), VXLANMode: modeGo(o.pool.vxlan)}
 		if o.pool.lb {
 			p.AllowedUses = []apiv3.IPPoolAllowedUse{apiv3.IPPoolAllowedUseLoadBalancer}
 		}
 		res.OnPoolUpdate(api.Update{KVPair: model.KVPair{Key: key, Value: p}})
 	case kBlock:
-		key := model.BlockKey{CIDR: model.PrefixFromIPNet(o.c.ipnet())}
+		key := model.BlockKey{CIDR: model.PrefixFromIPNet(o.c.net(o.v6))}
 		if o.block == nil {
 			res.OnBlockUpdate(api.Update{KVPair: model.KVPair{Key: key}, UpdateType: api.UpdateTypeKVDeleted})
 			return
 		}
 		size := 1 << uint(32-o.c.len)
-		b := &model.AllocationBlock{CIDR: o.c.ipnet(), Allocations: make([]*int, size)}
+		b := &model.AllocationBlock{CIDR: o.c.net(o.v6), Allocations: make([]*int, size)}
 		if o.block.aff >= 0 {
 			a := "host:" + nodeName(o.block.aff)
 			b.Affinity = &a
@@ -273,7 +310,10 @@ func apply(res *calc.L3RouteResolver, o op) {
 		}
 		n := internalapi.NewNode()
 		n.Name = nodeName(o.n)
-		bgp := &internalapi.NodeBGPSpec{IPv6Address: fmt.Sprintf("fd00::%d/64", o.n+1)}
+		bgp := &internalapi.NodeBGPSpec{}
+		if o.node.hasV6 {
+			bgp.IPv6Address = fmt.Sprintf("%s/%d", ip6Str(o.node.addr6), 96+o.node.sub6.len)
+		}
 		if o.node.hasV4 {
 			bgp.IPv4Address = fmt.Sprintf("%s/%d", ipStr(o.node.addr), o.node.subnet.len)
 		}
@@ -281,13 +321,16 @@ func apply(res *calc.L3RouteResolver, o op) {
 		res.OnResourceUpdate(api.Update{KVPair: model.KVPair{Key: key, Value: n}})
 	case kWep:
 		key := model.WorkloadEndpointKey{Hostname: nodeName(0), OrchestratorID: "k8s", WorkloadID: fmt.Sprintf("w%d", o.n), EndpointID: "eth0"}
-		if len(o.cidrs) == 0 {
+		if len(o.cidrs) == 0 && len(o.cidrs6) == 0 {
 			res.OnWorkloadUpdate(api.Update{KVPair: model.KVPair{Key: key}, UpdateType: api.UpdateTypeKVDeleted})
 			return
 		}
 		w := &model.WorkloadEndpoint{Name: fmt.Sprintf("cali%d", o.n)}
 		for _, c := range o.cidrs {
 			w.IPv4Nets = append(w.IPv4Nets, c.ipnet())
+		}
+		for _, c := range o.cidrs6 {
+			w.IPv6Nets = append(w.IPv6Nets, c.ipnet6())
 		}
 		res.OnWorkloadUpdate(api.Update{KVPair: model.KVPair{Key: key, Value: w}})
 	}
@@ -329,7 +372,7 @@ func classify(k rtKey) (mgr, class int) {
 	// mgr: proto.IPPoolType of the manager; class: 0 tunnel device, 1 direct (parent device), 2 blackhole, 9 unexpected
 	switch k.class {
 	case routetable.RouteClassVXLANTunnel:
-		return 2, ifc(k.iface == "vxlan.calico", 0)
+		return 2, ifc(k.iface == "vxlan.calico" || k.iface == "vxlan-v6.calico", 0)
 	case routetable.RouteClassVXLANSameSubnet:
 		return 2, ifc(k.iface == "eth0", 1)
 	case routetable.RouteClassIPIPTunnel:
@@ -374,8 +417,31 @@ func ttypeOf(t routetable.TargetType) int {
 
 func parsePfx(s string) pfx {
 	c := ip.MustParseCIDROrIP(s)
+	if v6, ok := c.(ip.V6CIDR); ok {
+		if v6.Prefix() < 96 {
+			panic("verif C43: IPv6 CIDR outside the modelled /96: " + s)
+		}
+		return pfx{low32(v6.Addr()), int(v6.Prefix()) - 96}
+	}
 	v4 := c.(ip.V4CIDR)
 	return pfx{v4.Addr().(ip.V4Addr).AsUint32(), int(v4.Prefix())}
+}
+
+func low32(a ip.Addr) uint32 {
+	switch x := a.(type) {
+	case ip.V4Addr:
+		return x.AsUint32()
+	case ip.V6Addr:
+		b := x.AsNetIP().To16()
+		for _, y := range b[:12] {
+			_ = y
+		}
+		if b[0] != 0xfd || b[2] != 0x0c || b[3] != 0x43 {
+			panic("verif C43: IPv6 address outside fd00:c43::/96: " + x.String())
+		}
+		return uint32(b[12])<<24 | uint32(b[13])<<16 | uint32(b[14])<<8 | uint32(b[15])
+	}
+	panic("verif C43: unknown address type")
 }
 
 // ---------------------------------------------------------------- generation
@@ -408,12 +474,30 @@ func genPool(r *rng) *poolV {
 }
 
 func genNode(r *rng, u *universe, i int) *nodeV {
-	switch r.intn(10) {
-	case 0:
+	if r.coin(1, 10) {
 		return nil
-	case 1:
-		return &nodeV{}
 	}
+	var n nodeV
+	switch r.intn(8) {
+	case 0: // IPv6 only
+	default:
+		if p := genNodePart(r, u, i); p != nil {
+			n.hasV4, n.addr, n.subnet = true, p.addr, p.subnet
+		}
+	}
+	if r.coin(2, 3) {
+		if p := genNodePart(r, u, i); p != nil {
+			n.hasV6, n.addr6, n.sub6 = true, p.addr, p.subnet
+		}
+	}
+	if !n.hasV4 && !n.hasV6 {
+		n.hasV6, n.addr6, n.sub6 = true, u.subs[0].addr|uint32(10+i), u.subs[0]
+	}
+	return &n
+}
+
+// one family's (address, subnet)
+func genNodePart(r *rng, u *universe, i int) *nodeV {
 	s := u.subs[r.intn(len(u.subs))]
 	host := uint32(10 + i)
 	if r.coin(1, 8) {
@@ -427,7 +511,7 @@ func genNode(r *rng, u *universe, i int) *nodeV {
 		addr = s.addr | (host & (1<<uint(32-s.len) - 1))
 	}
 	// the subnet Felix derives is the network of "addr/len" (Node.Spec.BGP.IPv4Address)
-	return &nodeV{true, addr, pfx{addr &^ (1<<uint(32-s.len) - 1), s.len}}
+	return &nodeV{hasV4: true, addr: addr, subnet: pfx{addr &^ (1<<uint(32-s.len) - 1), s.len}}
 }
 
 func genBlock(r *rng, u *universe, c pfx) *blockV {
@@ -485,10 +569,10 @@ func genOp(r *rng, u *universe) op {
 	switch k := r.intn(10); {
 	case k < 3:
 		c := u.pools[r.intn(len(u.pools))]
-		return op{kind: kPool, c: c, pool: genPool(r)}
+		return mkPoolOp(r, c, r.coin(1, 3))
 	case k < 6:
 		c := u.blocks[r.intn(len(u.blocks))]
-		return op{kind: kBlock, c: c, block: genBlock(r, u, c)}
+		return op{kind: kBlock, c: c, block: genBlock(r, u, c), v6: r.coin(1, 3)}
 	case k < 9:
 		n := r.intn(u.nNodes)
 		if r.coin(1, 3) {
@@ -496,8 +580,24 @@ func genOp(r *rng, u *universe) op {
 		}
 		return op{kind: kNode, n: n, node: genNode(r, u, n)}
 	default:
-		return op{kind: kWep, n: r.intn(u.nWeps), cidrs: genWep(r, u)}
+		return mkWepOp(r, u, r.intn(u.nWeps))
 	}
+}
+
+// IPv6 pools have no IPIP mode
+func mkPoolOp(r *rng, c pfx, v6 bool) op {
+	p := genPool(r)
+	if v6 && p != nil && p.ipip != mNever {
+		p = &poolV{mNever, p.ipip, p.lb}
+	}
+	return op{kind: kPool, c: c, pool: p, v6: v6}
+}
+func mkWepOp(r *rng, u *universe, id int) op {
+	o := op{kind: kWep, n: id, cidrs: genWep(r, u)}
+	if r.coin(1, 2) {
+		o.cidrs6 = genWep(r, u)
+	}
+	return o
 }
 
 func genUniverse(r *rng) (*universe, string) {
@@ -550,12 +650,18 @@ func genHistory(r *rng, u *universe) []op {
 	var tail []op
 	for _, c := range u.pools {
 		if r.coin(3, 4) {
-			tail = append(tail, op{kind: kPool, c: c, pool: genPool(r)})
+			tail = append(tail, mkPoolOp(r, c, false))
+		}
+		if r.coin(1, 3) {
+			tail = append(tail, mkPoolOp(r, c, true))
 		}
 	}
 	for _, c := range u.blocks {
 		if r.coin(3, 4) {
 			tail = append(tail, op{kind: kBlock, c: c, block: genBlock(r, u, c)})
+		}
+		if r.coin(1, 3) {
+			tail = append(tail, op{kind: kBlock, c: c, block: genBlock(r, u, c), v6: true})
 		}
 	}
 	for i := 0; i < u.nNodes; i++ {
@@ -565,7 +671,7 @@ func genHistory(r *rng, u *universe) []op {
 	}
 	for i := 0; i < u.nWeps; i++ {
 		if r.coin(1, 2) {
-			tail = append(tail, op{kind: kWep, n: i, cidrs: genWep(r, u)})
+			tail = append(tail, mkWepOp(r, u, i))
 		}
 	}
 	for i := len(tail) - 1; i > 0; i-- {
@@ -582,11 +688,25 @@ func scripted(i int) ([]op, string) {
 	b := mk(10, 1, 0, 0, 26)
 	s1 := mk(172, 16, 1, 0, 24)
 	s2 := mk(172, 16, 2, 0, 24)
-	me := func(s pfx) op { return op{kind: kNode, n: 0, node: &nodeV{true, s.addr | 10, s}} }
-	peer := func(s pfx) op { return op{kind: kNode, n: 1, node: &nodeV{true, s.addr | 11, s}} }
+	me := func(s pfx) op { return op{kind: kNode, n: 0, node: &nodeV{hasV4: true, addr: s.addr | 10, subnet: s}} }
+	peer := func(s pfx) op { return op{kind: kNode, n: 1, node: &nodeV{hasV4: true, addr: s.addr | 11, subnet: s}} }
+	v6only := func(n int) op { return op{kind: kNode, n: n, node: &nodeV{hasV6: true, addr6: s2.addr | uint32(10+n), sub6: s2}} }
+	dual := func(n int, s4, s6 pfx) op {
+		return op{kind: kNode, n: n, node: &nodeV{hasV4: true, addr: s4.addr | uint32(10+n), subnet: s4, hasV6: true, addr6: s6.addr | uint32(10+n), sub6: s6}}
+	}
+	pool6 := func(vx int) op { return op{kind: kPool, c: p, pool: &poolV{mNever, vx, false}, v6: true} }
+	blk6 := func(aff int, al ...allocV) op { return op{kind: kBlock, c: b, block: &blockV{aff, al}, v6: true} }
 	pool := func(ipip, vx int) op { return op{kind: kPool, c: p, pool: &poolV{ipip, vx, false}} }
 	blk := func(aff int, al ...allocV) op { return op{kind: kBlock, c: b, block: &blockV{aff, al}} }
-	switch i % 10 {
+	switch i % 14 {
+	case 10:
+		return []op{pool6(mCross), blk6(1, allocV{3, 2}), dual(1, s1, s1), dual(2, s1, s2), dual(0, s1, s1)}, "script:dual-local-node-last"
+	case 11:
+		return []op{dual(0, s1, s1), dual(1, s1, s1), pool6(mCross), pool(mNever, mCross), blk6(1), blk(1), dual(0, s2, s2)}, "script:dual-local-renumbered"
+	case 12:
+		return []op{dual(0, s1, s1), dual(1, s2, s1), pool6(mCross), blk6(1), {kind: kNode, n: 0}, dual(0, s2, s1)}, "script:dual-local-deleted-and-back"
+	case 13:
+		return []op{dual(0, s1, s2), dual(1, s1, s1), pool6(mCross), blk6(1), {kind: kWep, n: 0, cidrs6: []pfx{{b.addr + 5, 32}}}, dual(0, s1, s1), dual(1, s1, s2)}, "script:dual-v6-subnet-only"
 	case 0:
 		return []op{pool(mNever, mCross), blk(1), peer(s1), me(s1)}, "script:local-node-last"
 	case 1:
@@ -596,9 +716,9 @@ func scripted(i int) ([]op, string) {
 	case 3:
 		return []op{me(s1), peer(s1), blk(1), pool(mNever, mCross), {kind: kNode, n: 0}}, "script:local-node-deleted"
 	case 4:
-		return []op{{kind: kNode, n: 0, node: &nodeV{}}, peer(s1), blk(1), pool(mNever, mCross), me(s1)}, "script:local-v6only-then-v4"
+		return []op{v6only(0), peer(s1), blk(1), pool(mNever, mCross), me(s1)}, "script:local-v6only-then-v4"
 	case 5:
-		return []op{me(s1), peer(s1), blk(1), pool(mNever, mCross), {kind: kNode, n: 0, node: &nodeV{}}}, "script:local-v4-then-v6only"
+		return []op{me(s1), peer(s1), blk(1), pool(mNever, mCross), v6only(0)}, "script:local-v4-then-v6only"
 	case 6:
 		return []op{me(s1), peer(s1), pool(mNever, mAlways), blk(0, allocV{3, 1}), blk(1, allocV{3, 0})}, "script:affinity-moves-with-borrowed"
 	case 7:
@@ -663,7 +783,8 @@ func runCase(r *rng, ops []op, nNodes int, tags []string) line {
 		}
 	}
 	rt := &recRT{cur: map[rtKey][]routetable.Target{}}
-	mgrs := intdataplane.VerifC43NewManagers(rt, nodeName(0), "eth0")
+	rt6 := &recRT{cur: map[rtKey][]routetable.Target{}}
+	mgrs := intdataplane.VerifC43NewDualManagers(rt, rt6, nodeName(0), "eth0")
 	rec := &recorder{routes: map[string]*proto.RouteUpdate{}, mgrs: mgrs}
 	res := calc.NewL3RouteResolver(nodeName(0), rec, "CalicoIPAM")
 	res.OnAlive = func() {}
@@ -678,25 +799,54 @@ func runCase(r *rng, ops []op, nNodes int, tags []string) line {
 	sendMeta := func() {
 		for i := 0; i < nNodes; i++ {
 			nv := final[i]
-			if nv == nil || !nv.hasV4 {
+			if nv == nil {
 				continue
 			}
-			mgrs.OnUpdate(&proto.HostMetadataUpdate{Hostname: nodeName(i), Ipv4Addr: ipStr(nv.addr)})
-			mgrs.OnUpdate(&proto.VXLANTunnelEndpointUpdate{Node: nodeName(i), Mac: fmt.Sprintf("66:00:00:00:00:%02x", i),
-				Ipv4Addr: ipStr(vtepAddr(i)), ParentDeviceIp: ipStr(nv.addr)})
+			hm := &proto.HostMetadataUpdate{Hostname: nodeName(i)}
+			vt := &proto.VXLANTunnelEndpointUpdate{Node: nodeName(i)}
+			if nv.hasV4 {
+				hm.Ipv4Addr = ipStr(nv.addr)
+				vt.Mac, vt.Ipv4Addr, vt.ParentDeviceIp = fmt.Sprintf("66:00:00:00:00:%02x", i), ipStr(vtepAddr(i)), ipStr(nv.addr)
+			}
+			if nv.hasV6 {
+				hm.Ipv6Addr = ip6Str(nv.addr6)
+				vt.MacV6, vt.Ipv6Addr, vt.ParentDeviceIpv6 = fmt.Sprintf("66:00:00:00:06:%02x", i), ip6Str(vtepAddr(i)), ip6Str(nv.addr6)
+			}
+			mgrs.OnUpdate(hm)
+			mgrs.OnUpdate(vt)
 		}
 	}
 	metaFirst := r.coin(1, 2)
 	if metaFirst {
 		sendMeta()
 	}
+	dualFlip := false // one update of the local node changes the subnet of both families
+	var cur0 *nodeV
 	for _, o := range ops {
+		if o.kind == kNode && o.n == 0 {
+			sub := func(n *nodeV, six bool) pfx {
+				if n == nil || (six && !n.hasV6) || (!six && !n.hasV4) {
+					return pfx{}
+				}
+				if six {
+					return n.sub6
+				}
+				return n.subnet
+			}
+			if sub(cur0, false) != sub(o.node, false) && sub(cur0, true) != sub(o.node, true) {
+				dualFlip = true
+			}
+			cur0 = o.node
+		}
 		apply(res, o)
 		if r.coin(1, 4) {
 			if err := mgrs.CompleteDeferredWork(); err != nil {
 				panic(err)
 			}
 		}
+	}
+	if dualFlip {
+		tags = append(tags, "local-both-subnets-change-at-once")
 	}
 	if !metaFirst {
 		sendMeta()
@@ -705,12 +855,33 @@ func runCase(r *rng, ops []op, nNodes int, tags []string) line {
 		panic(err)
 	}
 
-	// observable 1: accumulated route set
+	rs4, hr4, int4 := routesObs(rec.routes, false)
+	rs6, hr6, int6 := routesObs(rec.routes, true)
+	kc4, hk4 := kernelObs(rt, false)
+	kc6, hk6 := kernelObs(rt6, true)
+	if int6 {
+		tags = append(tags, "v6-remote-routes")
+	}
+
+	var oc, ho, keys []string
+	for _, o := range ops {
+		oc = append(oc, o.coq())
+		ho = append(ho, o.human())
+		keys = append(keys, o.coq())
+	}
+	coq := fmt.Sprintf("{| c_fixed := "+fmt.Sprint(treeFixed)+"; c_ops := [%s]; c_routes := [%s]; c_kernel := [%s]; c_routes6 := [%s]; c_kernel6 := [%s] |}",
+		strings.Join(oc, "; "), strings.Join(rs4, "; "), strings.Join(kc4, "; "), strings.Join(rs6, "; "), strings.Join(kc6, "; "))
+	return line{Coq: coq, NT: (int4 || int6) && len(ops) >= 4, Key: strings.Join(keys, ";"),
+		Sample: map[string]any{"history": ho, "routes": hr4, "kernel": hk4, "routes6": hr6, "kernel6": hk6, "updates": rec.nUpd, "removes": rec.nRem}, Tags: tags}
+}
+
+// observable 1: accumulated route set of one family
+func routesObs(routes map[string]*proto.RouteUpdate, v6 bool) (rs, hr []string, interesting bool) {
 	var dsts []pfx
 	byDst := map[pfx]*proto.RouteUpdate{}
-	for d, u := range rec.routes {
-		if strings.Contains(d, ":") {
-			continue // IPv6 host routes of the nodes: outside the IPv4 model
+	for d, u := range routes {
+		if strings.Contains(d, ":") != v6 {
+			continue
 		}
 		p := parsePfx(d)
 		dsts = append(dsts, p)
@@ -722,8 +893,6 @@ func runCase(r *rng, ops []op, nNodes int, tags []string) line {
 		}
 		return dsts[i].len < dsts[j].len
 	})
-	var rs, hr []string
-	interesting := false
 	for _, d := range dsts {
 		u := byDst[d]
 		nd, ipS := "None", "None"
@@ -731,25 +900,28 @@ func runCase(r *rng, ops []op, nNodes int, tags []string) line {
 			nd = optN(nodeIdx(u.DstNodeName))
 		}
 		if u.DstNodeIp != "" {
-			ipS = fmt.Sprintf("(Some %d)", ip.FromString(u.DstNodeIp).(ip.V4Addr).AsUint32())
+			ipS = fmt.Sprintf("(Some %d)", low32(ip.FromString(u.DstNodeIp)))
 		}
 		rs = append(rs, fmt.Sprintf("(%s, mkRoute %d %d %s %s %v %v %v)", d.coq(), int(u.Types), int(u.IpPoolType), nd, ipS,
 			u.SameSubnet, u.Borrowed, u.LocalWorkload))
-		hr = append(hr, fmt.Sprintf("%s types=%d pool=%s node=%s ip=%s same=%v borrowed=%v localwl=%v", d, int(u.Types), u.IpPoolType,
+		hr = append(hr, fmt.Sprintf("%s types=%d pool=%s node=%s ip=%s same=%v borrowed=%v localwl=%v", d.str(v6), int(u.Types), u.IpPoolType,
 			u.DstNodeName, u.DstNodeIp, u.SameSubnet, u.Borrowed, u.LocalWorkload))
 		if u.Types&proto.RouteType_REMOTE_WORKLOAD != 0 && u.IpPoolType != proto.IPPoolType_NONE && u.DstNodeName != nodeName(0) {
 			interesting = true
 		}
 	}
+	return
+}
 
-	// observable 2: kernel routes asked of the route table
+// observable 2: kernel routes asked of one family's route table
+func kernelObs(rt *recRT, v6 bool) (kc, hk []string) {
 	var ks []kroute
 	for k, ts := range rt.cur {
 		mgr, class := classify(k)
 		for _, t := range ts {
 			kr := kroute{mgr: mgr, class: class, ttype: ttypeOf(t.Type), dst: parsePfx(t.CIDR.String()), gw: -1}
 			if t.GW != nil {
-				kr.gw = int64(t.GW.(ip.V4Addr).AsUint32())
+				kr.gw = int64(low32(t.GW))
 			}
 			ks = append(ks, kr)
 		}
@@ -767,7 +939,6 @@ func runCase(r *rng, ops []op, nNodes int, tags []string) line {
 		}
 		return a.dst.len < b.dst.len
 	})
-	var kc, hk []string
 	for _, k := range ks {
 		gw := "None"
 		if k.gw >= 0 {
@@ -777,20 +948,14 @@ func runCase(r *rng, ops []op, nNodes int, tags []string) line {
 		g := "-"
 		if k.gw >= 0 {
 			g = ipStr(uint32(k.gw))
+			if v6 {
+				g = ip6Str(uint32(k.gw))
+			}
 		}
 		hk = append(hk, fmt.Sprintf("mgr=%s %s %s via %s", []string{"?", "noencap", "vxlan", "ipip"}[k.mgr],
-			map[int]string{0: "tunnel-dev", 1: "direct", 2: "blackhole", 9: "UNEXPECTED"}[k.class], k.dst, g))
+			map[int]string{0: "tunnel-dev", 1: "direct", 2: "blackhole", 9: "UNEXPECTED"}[k.class], k.dst.str(v6), g))
 	}
-
-	var oc, ho, keys []string
-	for _, o := range ops {
-		oc = append(oc, o.coq())
-		ho = append(ho, o.human())
-		keys = append(keys, o.coq())
-	}
-	coq := fmt.Sprintf("{| c_fixed := "+fmt.Sprint(treeFixed)+"; c_ops := [%s]; c_routes := [%s]; c_kernel := [%s] |}", strings.Join(oc, "; "), strings.Join(rs, "; "), strings.Join(kc, "; "))
-	return line{Coq: coq, NT: interesting && len(ops) >= 4, Key: strings.Join(keys, ";"),
-		Sample: map[string]any{"history": ho, "routes": hr, "kernel": hk, "updates": rec.nUpd, "removes": rec.nRem}, Tags: tags}
+	return
 }
 
 func main() {
@@ -810,7 +975,7 @@ func main() {
 			// scripted shape, optionally followed by a random tail over the default universe
 			ops, tag := scripted(i / 5)
 			tags := []string{"stream:scripted", tag}
-			if (i/5)/10%2 == 1 {
+			if (i/5)/14%2 == 1 {
 				u, _ := genUniverse(r)
 				k := 1 + r.intn(5)
 				for j := 0; j < k; j++ {
